@@ -441,7 +441,7 @@ func c03MantExp(c *mc.Check, offsets int) {
 }
 
 func c03Integers(c *mc.Check) {
-	f := c.Family("integer-boundaries", "integers B+δ (δ∈−25..25) around 2^53, 2^63, 2^64, (MaxInt64−10)/10 and its ×10, 10^18, 10^19, 10^22, 10^23, each also ×10^k (k≤21) and with suffixes .0 .5 e0 and leading zeros / signs, in both fields; compared with strconv; non-trivial = strconv accepts", c03Replay)
+	f := c.Family("integer-boundaries", "integers B+δ (δ∈−25..25) around 2^53, 2^63, 2^64, (MaxInt64−10)/10 and its ×10, 10^18, 10^19, 10^22, 10^23, each also ×10^k (k≤21) and with suffixes .0 .5 e0 and leading zeros / signs, and written with underscore-separated digit groups, in both fields; compared with strconv; non-trivial = strconv accepts", c03Replay)
 	if c.Replaying() {
 		return
 	}
@@ -459,6 +459,18 @@ func c03Integers(c *mc.Check) {
 				texts = append(texts, s)
 				if k <= 2 {
 					texts = append(texts, "-"+s, "+"+s, "00"+s, s+".0", s+".5", s+"e0", s+"_", "0"+s+"e-1")
+				}
+				if d == 0 || d == -1 || d == 1 {
+					// digit groups separated by underscores (accepted in base-prefixed literals only): long
+					// fields take another path through the integer parser than short ones
+					var g []byte
+					for i := 0; i < len(s); i++ {
+						if i > 0 && (len(s)-i)%3 == 0 {
+							g = append(g, '_')
+						}
+						g = append(g, s[i])
+					}
+					texts = append(texts, string(g), "+"+string(g), "-"+string(g), "0"+string(g), string(g)+".0", "0x"+string(g))
 				}
 			}
 		}
